@@ -614,6 +614,7 @@ func extractC03() *lean {
 	c03ExternalFacts(l)
 	c03ConfigFacts(l)
 	c03ExportFacts(l)
+	c03PemFacts(l)
 	return l
 }
 
